@@ -478,6 +478,8 @@ class TFLiteSemantic:
         axis_tens = op.inputs[0]
         input_tens = op.inputs[1]
         dims = len(input_tens.shape)
+        if axis_tens.values is None:
+            return False, "Op has a non-constant axis tensor"
         # handle axis being a scalar or 1-D array
         if axis_tens.values.ndim == 0:
             axis = int(axis_tens.values)
@@ -494,6 +496,8 @@ class TFLiteSemantic:
         axis_tens = op.inputs[0]
         input_tens = op.inputs[1]
         dims = len(input_tens.shape)
+        if axis_tens.values is None:
+            return False, "Op has a non-constant axis tensor"
         # handle axis being a scalar or 1-D array
         if axis_tens.values.ndim == 0:
             axis = int(axis_tens.values)
@@ -507,6 +511,8 @@ class TFLiteSemantic:
     def constraint_splitv_inferred(op):
         "Only one size is allowed to be inferred"
         sizes = op.inputs[1].values
+        if sizes is None:
+            return False, "Op has a non-constant sizes tensor"
         valid = np.count_nonzero(sizes == -1) <= 1
         return valid, f"Op has multiple inferred sizes (-1): {sizes}"
 
@@ -763,6 +769,8 @@ class TFLiteSemantic:
           - Reduction in Depth axis is supported if at least one of H,W,C are of size 1."""
         input_shape = op.inputs[0].shape
         dims = len(input_shape)
+        if op.inputs[1].values is None:
+            return False, "Op has a non-constant axis tensor"
         if op.inputs[1].shape == []:
             axis = [int(op.inputs[1].values)]
         else:
